@@ -225,7 +225,7 @@ class Source(typing.NamedTuple):
                     raise forml.InvalidError('Label-feature overlap')
             if train.schema != apply.schema:
                 raise forml.InvalidError('Train-apply schema mismatch')
-            if ordinal:
+            if ordinal is not None:
                 ordinal = cls.Ordinal(ordinal, once)
             elif once:
                 raise forml.InvalidError('Once without an Ordinal')
